@@ -1662,18 +1662,15 @@ impl<'input, T: Input> Scanner<'input, T> {
         // - |+
         // ```
         if self.input.next_is_z() {
+            // The line break that ends the header is not part of the content. Without any
+            // content line, stripping and clipping leave nothing (there is no final line break to
+            // clip to) and keeping preserves the empty lines only. This is also what we yield when
+            // the scalar is followed by something else than the end of the stream.
             let contents = match chomping {
-                // We strip trailing linebreaks. Nothing remain.
-                Chomping::Strip => String::new(),
-                // There was no newline after the chomping indicator.
-                _ if self.mark.line == start_mark.line() => String::new(),
-                // We clip lines, and there was a newline after the chomping indicator.
-                // All other breaks are ignored.
-                Chomping::Clip => chomping_break,
-                // We keep lines. There was a newline after the chomping indicator but nothing
-                // else.
-                Chomping::Keep if trailing_breaks.is_empty() => chomping_break,
-                // Otherwise, the newline after chomping is ignored.
+                Chomping::Strip | Chomping::Clip => String::new(),
+                // A last line made of spaces only that is not terminated by a line break still
+                // counts as an empty line.
+                Chomping::Keep if trailing_breaks.is_empty() && self.mark.col > 0 => chomping_break,
                 Chomping::Keep => trailing_breaks,
             };
             return Ok(Token(
